@@ -79,8 +79,9 @@ func (c *Contract) ClausesOf(kind string) []*Clause {
 }
 
 type GuardDecl struct {
-	Field string
-	Lock  string // field name of the lock in the same struct ("mu"), or "immutable"/"owned"
+	Field    string
+	Lock     string // field name of the lock in the same struct ("mu"), or "immutable"/"owned"/"stable"
+	ChanOnly bool   // `chan f guarded_by mu`: only the closed state of the channel in f is guarded
 }
 
 type TypeSpec struct {
@@ -197,6 +198,12 @@ func (db *ContractDB) LoadContractFile(file, pkgPath string) {
 			}
 			curType = &TypeSpec{Pkg: pk, Name: name, Monitors: map[string][]*Clause{}}
 			db.Types[pk+"."+name] = curType
+		case "chan":
+			if curType == nil || len(fields) < 4 || fields[2] != "guarded_by" {
+				errf("bad chan clause")
+				return
+			}
+			curType.Guards = append(curType.Guards, GuardDecl{Field: fields[1], Lock: fields[3], ChanOnly: true})
 		case "field":
 			if curType == nil {
 				errf("field outside type block")
